@@ -92,6 +92,16 @@ pub fn exact_int(x: f64) -> Result<i64, String> {
     }
 }
 
+/// the integer x is within conversion noise of (unit profile), else an error
+pub fn near_int(x: f64) -> Result<i64, String> {
+    let r = x.round();
+    if x.is_finite() && (x - r).abs() <= 1e-6 * r.abs().max(1.0) && r.abs() < 2.0e9 {
+        Ok(r as i64)
+    } else {
+        Err(format!("{:?}", x))
+    }
+}
+
 /// round(x * scale) as an integer, saturating at +-2e9 (non-finite values become the sentinel 2e9+1 / -2e9-1 / 2e9+2)
 pub fn scaled(x: f64, scale: f64) -> i64 {
     if x.is_nan() {
